@@ -35,6 +35,9 @@ class HarnessError(Exception):
 
 def build(variant, repo=None):
     """Build the driver for `variant` from the repository's working tree into a fresh temp dir."""
+    pre = os.environ.get('VERIF_PREBUILT')      # (mutation screening only: tools/mutate.py builds each mutant once for all checks)
+    if pre and os.path.exists(os.path.join(pre, variant, 'vdrv' if variant != 'fuzz' else 'fuzz_parse')):
+        return os.path.join(pre, variant)
     out = mktemp_dir('verif_build_%s_' % variant)
     p = subprocess.run(['sh', os.path.join(VERIF, 'build', 'mk.sh'), variant, out, repo or REPO],
                        stdout=subprocess.PIPE, stderr=subprocess.STDOUT, text=True)
@@ -410,6 +413,11 @@ def explore(modname, specs, bindirs, chunk=100, opts=None, nproc=None):
     """Run all specs of module `modname` in parallel; returns merged Result."""
     total = Result()
     nproc = nproc or NPROC
+    scale = float(os.environ.get('VERIF_SCALE', '1') or 1)
+    if scale < 1:
+        # mutation screening only: a deterministic thinning of the workload
+        k = max(1, int(round(1 / scale)))
+        specs = (sp for i, sp in enumerate(specs) if i % k == 0)
     first = not _COV and 'cov' in bindirs and not (opts or {}).get('variant')
     sample = []
     if first:
